@@ -39,6 +39,90 @@ Fixpoint obs_list_eqb (a b : list obs_event) : bool :=
   | _, _ => false
   end.
 
+(** The combined statement of a batch up to the order of its OR-ed groups: makeBatchQuery emits one group per
+    column set and ORs them; which group comes first does not matter to any row (Sql/GroupOrder.v:
+    [eval_batch_perm]) nor to confinement, so the evaluator accepts the groups in any order -- each with its own
+    text and its own arguments at its own place. *)
+Fixpoint strip_prefix (p s : string) : option string :=
+  match p with
+  | EmptyString => Some s
+  | String a p' =>
+      match s with
+      | String b s' => if Ascii.eqb a b then strip_prefix p' s' else None
+      | EmptyString => None
+      end
+  end.
+
+Fixpoint strip_args (p a : list dval) : option (list dval) :=
+  match p with
+  | [] => Some a
+  | x :: p' =>
+      match a with
+      | y :: a' => if dval_eqb x y then strip_args p' a' else None
+      | [] => None
+      end
+  end.
+
+(** Take out the first group (in the model's order) whose text and arguments stand at the head of what is left. *)
+Fixpoint take_group (gs : list bgroup) (text : string) (args : list dval) : option (list bgroup * string * list dval) :=
+  match gs with
+  | [] => None
+  | g :: rest =>
+      let next := match take_group rest text args with
+                  | Some (r, t, a) => Some (g :: r, t, a)
+                  | None => None
+                  end in
+      match strip_prefix (group_text g) text, strip_args (group_args g) args with
+      | Some text', Some args' =>
+          match text' with
+          | EmptyString => Some (rest, EmptyString, args')
+          | _ => match strip_prefix " OR " text' with
+                 | Some t'' => if String.eqb t'' "" then next else Some (rest, t'', args')
+                 | None => next
+                 end
+          end
+      | _, _ => next
+      end
+  end.
+
+Fixpoint match_groups (fuel : nat) (gs : list bgroup) (text : string) (args : list dval) : bool :=
+  match gs with
+  | [] => String.eqb text "" && match args with [] => true | _ => false end
+  | _ =>
+      match fuel with
+      | O => false
+      | S fuel' =>
+          match take_group gs text args with
+          | Some (rest, t, a) =>
+              (match rest with [] => true | _ => negb (String.eqb t "") end) && match_groups fuel' rest t a
+          | None => false
+          end
+      end
+  end.
+
+Definition batch_stmt_matches (tbl : string) (cols : list string) (gs : list bgroup) (text : string) (args : list dval) : bool :=
+  let head := "SELECT " ++ join ", " cols ++ " FROM " ++ tbl in
+  match gs with
+  | [] => String.eqb text head && match args with [] => true | _ => false end
+  | _ => match strip_prefix (head ++ " WHERE ") text with
+         | Some rest => negb (String.eqb rest "") && match_groups (List.length gs) gs rest args
+         | None => false
+         end
+  end.
+
+Definition ev_obs_eqb (e : event) (o : obs_event) : bool :=
+  match e, o with
+  | EStmt (SSelect tbl cols (WBatch gs) None), OStmt text args => batch_stmt_matches tbl cols gs text args
+  | _, _ => obs_eqb (obs_of_event e) o
+  end.
+
+Fixpoint ev_obs_list_eqb (a : list event) (b : list obs_event) : bool :=
+  match a, b with
+  | [], [] => true
+  | x :: a', y :: b' => ev_obs_eqb x y && ev_obs_list_eqb a' b'
+  | _, _ => false
+  end.
+
 Definition outcome_code (o : outcome) : nat :=
   match o with Proceeds => 0 | Rejected => 1 | BadInput => 2 end.
 
@@ -60,6 +144,19 @@ Definition obs_of_xevent (e : xevent) : obs_event :=
   match e with
   | XEv e => obs_of_event e
   | XExplain s => OStmt ("EXPLAIN " ++ sql_text s) (sql_args s)
+  end.
+
+Definition xev_obs_eqb (e : xevent) (o : obs_event) : bool :=
+  match e with
+  | XEv e => ev_obs_eqb e o
+  | XExplain _ => obs_eqb (obs_of_xevent e) o
+  end.
+
+Fixpoint xev_obs_list_eqb (a : list xevent) (b : list obs_event) : bool :=
+  match a, b with
+  | [], [] => true
+  | x :: a', y :: b' => xev_obs_eqb x y && xev_obs_list_eqb a' b'
+  | _, _ => false
   end.
 
 Fixpoint gfilter_eqb (a b : filter) : bool :=
@@ -104,30 +201,30 @@ Definition c12_check (c : c12_case) : list nat :=
       let (x, r) := derive x_base steps in
       let (ev, code) := run_call x (k_table c) (k_ctx c) cl in
       (if nat_list_eqb [code] (k_outcomes c) then [] else [1])
-      ++ (if obs_list_eqb (map obs_of_xevent ev) (k_events c) then [] else [2])
+      ++ (if xev_obs_list_eqb ev (k_events c) then [] else [2])
       ++ (if call_wfb x (k_table c) cl then [] else [4])
       ++ (if handle_eqb (x_h x) (k_handle c) && bool_list_eqb r refused then [] else [5])
   | Single o =>
       let (ev, out) := run (k_handle c) (k_table c) (k_ctx c) o in
       (if nat_list_eqb [outcome_code out] (k_outcomes c) then [] else [1])
-      ++ (if obs_list_eqb (map obs_of_event ev) (k_events c) then [] else [2])
+      ++ (if ev_obs_list_eqb ev (k_events c) then [] else [2])
       ++ (if op_wfb (k_handle c) (k_table c) o then [] else [4])
   | Batched fs arrival =>
       let (ev, outs) := run_batched (k_handle c) (k_table c) fs arrival in
       (if nat_list_eqb (map outcome_code outs) (k_outcomes c) then [] else [1])
-      ++ (if obs_list_eqb (map obs_of_event ev) (k_events c) then [] else [2])
+      ++ (if ev_obs_list_eqb ev (k_events c) then [] else [2])
       ++ (if arrival_consistent (k_handle c) (k_table c) fs arrival then [] else [3])
       ++ (if batched_wfb (k_handle c) (k_table c) fs then [] else [4])
   | BatchedMulti cs arrival =>
       let (ev, outs) := run_batched_multi (k_table c) cs arrival in
       (if nat_list_eqb (map outcome_code outs) (k_outcomes c) then [] else [1])
-      ++ (if obs_list_eqb (map obs_of_event ev) (k_events c) then [] else [2])
+      ++ (if ev_obs_list_eqb ev (k_events c) then [] else [2])
       ++ (if arrival_consistent_multi (k_table c) cs arrival then [] else [3])
       ++ (if batched_multi_wfb (k_table c) cs then [] else [4])
   | Seq ops =>
       let (ev, outs) := run_seq (k_handle c) (k_table c) (batching (k_ctx c)) ops in
       (if nat_list_eqb (map outcome_code outs) (k_outcomes c) then [] else [1])
-      ++ (if obs_list_eqb (map obs_of_event ev) (k_events c) then [] else [2])
+      ++ (if ev_obs_list_eqb ev (k_events c) then [] else [2])
       ++ (if forallb (op_wfb (k_handle c) (k_table c)) ops then [] else [4])
   end.
 
@@ -251,20 +348,22 @@ Fixpoint results_agree (model : list (option (nat * list nat))) (obs : list (nat
   end.
 
 (** Equality of two statement lists up to order (concurrent callers reach the server in any order). *)
-Fixpoint remove_obs (x : obs_event) (l : list obs_event) : option (list obs_event) :=
+Fixpoint remove_obs (x : event) (l : list obs_event) : option (list obs_event) :=
   match l with
   | [] => None
-  | y :: t => if obs_eqb x y then Some t
+  | y :: t => if ev_obs_eqb x y then Some t
               else match remove_obs x t with Some t' => Some (y :: t') | None => None end
   end.
-Fixpoint obs_perm_eqb (a b : list obs_event) : bool :=
+Fixpoint obs_perm_eqb (a : list event) (b : list obs_event) : bool :=
   match a with
   | [] => match b with [] => true | _ => false end
   | x :: a' => match remove_obs x b with Some b' => obs_perm_eqb a' b' | None => false end
   end.
 
+Definition own_event (t : table) (fs : list filter) (cs : list c10_caller) (i : nat) : event :=
+  EStmt (SSelect (t_name t) (col_names t) (WSimple (dfilter_of t (nth_filter fs i))) (nth_caller_opts cs i)).
 Definition own_stmt (t : table) (fs : list filter) (cs : list c10_caller) (i : nat) : obs_event :=
-  obs_of_event (EStmt (SSelect (t_name t) (col_names t) (WSimple (dfilter_of t (nth_filter fs i))) (nth_caller_opts cs i))).
+  obs_of_event (own_event t fs cs i).
 
 Definition has_opts (cs : list c10_caller) (i : nat) : bool :=
   match nth_caller_opts cs i with Some _ => true | None => false end.
@@ -303,8 +402,8 @@ Definition c10_check (c : c10_case) : list nat :=
   let cs := q_callers c in
   let n := List.length fs in
   (if obs_perm_eqb
-        (map (fun b => obs_of_event (EStmt (batch_stmt t (map (nth_filter fs) b)))) (q_arrival c)
-         ++ map (own_stmt t fs cs) (List.filter (has_opts cs) (seq 0 n)))
+        (map (fun b => EStmt (batch_stmt t (map (nth_filter fs) b))) (q_arrival c)
+         ++ map (own_event t fs cs) (List.filter (has_opts cs) (seq 0 n)))
         (q_batched_stmts c) then [] else [1])
   ++ (if results_agree (map (model_batched_rows (q_fixed c) t fs cs (q_arrival c) (q_contents c)) (seq 0 n)) (q_batched_rows c)
       then [] else [2])
